@@ -357,6 +357,77 @@ func c05counting(c *Ctx, nodes []base.LocalNode) error {
 		var toks []string
 		h := 33
 		stages := 2 + c.Intn(4)
+		// every fourth box starts with a record that is put on hold: INIT ballots that bring an expel and disagree on
+		// the proposal (a draw whose expels are not agreed yet waits for countHoldeds); the ACCEPT stage of the same
+		// height then reaches its majority and the box moves past the held record
+		if i%4 == 0 {
+			point := base.NewPoint(base.Height(int64(h)), base.Round(0))
+			isp := base.NewStagePoint(point, base.StageINIT)
+			known[isp.String()] = isp
+			toks = append(toks, fmt.Sprintf("%d.INIT.held", h))
+			target := nodes[size-1]
+			xf := isaac.NewSuffrageExpelFact(target.Address(), point.Height()-1, point.Height()+5, "no response")
+			xop := isaac.NewSuffrageExpelOperation(xf)
+			for j := 0; j < size-1; j++ {
+				_ = xop.NodeSign(nodes[j].Privatekey(), hNetworkID, nodes[j].Address())
+			}
+			prev, pa, pb := valuehash.RandomSHA256(), valuehash.RandomSHA256(), valuehash.RandomSHA256()
+			for j := 0; j < size-1; j++ {
+				proposal := pa
+				if j == size-2 {
+					proposal = pb
+				}
+				sf := isaac.NewINITBallotSignFact(isaac.NewINITBallotFact(point, prev, proposal, []util.Hash{xf.Hash()}))
+				_ = sf.NodeSign(nodes[j].Privatekey(), hNetworkID, nodes[j].Address())
+				_, _ = box.Vote(isaac.NewINITBallot(nil, sf, []base.SuffrageExpelOperation{xop}))
+			}
+			time.Sleep(300 * time.Microsecond)
+			box.Count()
+			held := 0
+		drainHeld:
+			for {
+				select {
+				case <-box.Voteproof():
+					held++
+				case <-time.After(500 * time.Microsecond):
+					break drainHeld
+				}
+			}
+			c.Count("counting-stage", fmt.Sprintf("held/%d-voteproofs", held))
+			asp := base.NewStagePoint(point, base.StageACCEPT)
+			known[asp.String()] = asp
+			toks = append(toks, fmt.Sprintf("%d.ACCEPT.majority", h))
+			afact := isaac.NewACCEPTBallotFact(point, valuehash.RandomSHA256(), valuehash.RandomSHA256(), nil)
+			for j := 0; j < size; j++ {
+				x := isaac.NewACCEPTBallotSignFact(afact)
+				_ = x.NodeSign(nodes[j].Privatekey(), hNetworkID, nodes[j].Address())
+				_, _ = box.VoteSignFact(x)
+			}
+			time.Sleep(300 * time.Microsecond)
+			box.Count()
+			var emitted []base.Voteproof
+		drainAcc:
+			for {
+				select {
+				case vp := <-box.Voteproof():
+					emitted = append(emitted, vp)
+				case <-time.After(500 * time.Microsecond):
+					break drainAcc
+				}
+			}
+			c.Eval(1)
+			c.Count("counting-stage", fmt.Sprintf("after-held/%d-voteproofs", len(emitted)))
+			for _, vp := range emitted {
+				for _, r := range box.VerifRecords() {
+					rsp, ok := known[r.SP]
+					if ok && rsp.Compare(vp.Point()) < 0 {
+						c.Violation("C05:passed-records-stay-live", fmt.Sprintf("stages %s: after the voteproof of %v the held record of %v is still among the live records (key %s, %d sign facts)",
+							strings.Join(toks, " "), vp.Point(), rsp, r.Key, len(r.Voted)), map[string]interface{}{"stages": append([]string{}, toks...), "suffrage": size})
+					}
+				}
+			}
+			h++
+		}
 		for st := 0; st < stages; st++ {
 			acc := c.Bool()
 			kind := []string{"majority", "majority", "confirm", "partial"}[c.Intn(4)]
